@@ -215,6 +215,17 @@ def run_both(drv, case):
             except Exception as e:
                 walks.append(alpha.exc_kind(e))
         obs["repeat_equal"] = walks[0] == walks[1]
+        # ... and equal to what a FIRST save of the same input writes: freshly built objects that no earlier (possibly
+        # failing) save has touched, in a process state that this case's earlier calls may have changed
+        try:
+            o2 = Objs(case)
+            x2 = o2.build_input(case["input"])
+            with common.quiet():
+                emdfile.save(os.path.join(d, "D.h5"), x2, mode="w", tree=case["tree"])
+            ref = c11.blank_uuid(alpha.canon_obs(alpha.raw_file(os.path.join(d, "D.h5"))))
+        except Exception as e:
+            ref = alpha.exc_kind(e)
+        obs["repeat_equal_to_first_save"] = (walks[0] == ref) or (isinstance(ref, dict) and "err" in ref and isinstance(walks[0], dict) and "err" in walks[0])
         obs["after_repeat"] = o.snapshot()
         # every unrooted node that was passed can still be added to a tree
         readd = True
@@ -234,7 +245,8 @@ def run_both(drv, case):
         shutil.rmtree(d, ignore_errors=True)
     # the model: `save` takes values, not references; the caller's heap is not an output of it (structural frame),
     # so the model's prediction is "after = before", and it is a function, so "repeat_equal"
-    mo = dict(obs, after=obs["before"], after_repeat=obs["before"], list_intact=True, repeat_equal=True, unrooted_can_be_added=True)
+    mo = dict(obs, after=obs["before"], after_repeat=obs["before"], list_intact=True, repeat_equal=True, repeat_equal_to_first_save=True,
+              unrooted_can_be_added=True)
     return obs, mo
 
 
@@ -247,6 +259,8 @@ def oracle(case, obs):
         return {"list_argument_changed": True}
     if not obs["repeat_equal"]:
         return {"two_saves_of_the_same_input_differ": True}
+    if not obs.get("repeat_equal_to_first_save", True):
+        return {"a_save_after_this_case_s_first_call_differs_from_a_first_save_of_the_same_input": True, "first_call": obs["save"]}
     if not obs["unrooted_can_be_added"]:
         return {"unrooted_node_can_no_longer_be_added_to_a_tree": True}
     return None
